@@ -210,4 +210,18 @@ theorem causal_prefix_cfb8 (C : Cipher) (s m ext : Bytes) :
   rw [C08.cfb8Dec_append, C08.cfb8Enc_append]
   exact ⟨List.take_left' (C08.cfb8Dec_length C m s), List.take_left' (C08.cfb8Enc_length C m s)⟩
 
+/-- **causality for every block-level mode object** (all twelve directions, the single-block bodies and hence, by
+    C07, every way of calling them): the outputs for a prefix of the blocks are a prefix of the outputs for any
+    extension — no output block depends on input that comes after it. -/
+theorem causal_prefix_fold {σ : Type} (step : σ → Bytes → Bytes × σ) (s : σ) (m ext : List Bytes) :
+    (Glue.foldBlocks step s (m ++ ext)).1.take m.length = (Glue.foldBlocks step s m).1 := by
+  rw [Glue.foldBlocks_append]
+  exact List.take_left' (Glue.foldBlocks_length step m s)
+
+/-- instances named in the property: PCBC and IGE (the modes in which an error propagates forever) are causal too. -/
+theorem causal_prefix_pcbc_ige (C : Cipher) (iv : Bytes) (s : Impl.Ige.St) (m ext : List Bytes) :
+    (Glue.foldBlocks (Impl.Pcbc.decBlock C) iv (m ++ ext)).1.take m.length = (Glue.foldBlocks (Impl.Pcbc.decBlock C) iv m).1 ∧
+    (Glue.foldBlocks (Impl.Ige.decBlock C) s (m ++ ext)).1.take m.length = (Glue.foldBlocks (Impl.Ige.decBlock C) s m).1 :=
+  ⟨causal_prefix_fold _ iv m ext, causal_prefix_fold _ s m ext⟩
+
 end Thm.C15
